@@ -40,8 +40,8 @@ fn elf_flags_to_prot(flags: u32) -> u32 {
     proc_flags
 }
 
-fn round_up_to_page_size(size: u64) -> u64 {
-    (size + 0xfff) & !0xfff
+fn round_up_to_page_size(size: u64) -> Option<u64> {
+    size.checked_add(0xfff).map(|s| s & !0xfff)
 }
 
 // TODO: System V ABI mentions %rdx should have "a function pointer that the application should register with atexit" at process entry
@@ -188,7 +188,20 @@ impl Axecutor {
                         segment.p_offset,
                     );
 
-                    let memsz = round_up_to_page_size(segment.p_memsz);
+                    // The area reaches from p_vaddr to the end of the last page the segment touches. Rounding the size
+                    // instead would, for an unaligned p_vaddr, run into the page after it, where the next segment may start
+                    let memsz = match segment
+                        .p_vaddr
+                        .checked_add(segment.p_memsz)
+                        .and_then(round_up_to_page_size)
+                    {
+                        Some(end) => end - segment.p_vaddr,
+                        None => {
+                            return Err(AxError::from(
+                                "ELF: Segment does not fit into the address space",
+                            ))
+                        }
+                    };
 
                     if memsz == segment.p_filesz {
                         axecutor.mem_init_area_named(
